@@ -111,3 +111,60 @@ def special_C21(seed, tier, model, deadline):
             fails.append({'seed': seed, 'k': 'rechunk-%d' % k, 'failure': f, 'ops': ops[:f['idx'] + 1]})
     return {'failures': fails, 'mismatches': mism,
             'coverage': {'rechunked_programs': progs, 'rechunked_ops': nops, 'extra_chunks': groups}}
+
+
+def special_C10(seed, tier, model, deadline):
+    """limit pressure: a small acknowledged MAX_CONCURRENT_STREAMS, peers opening / closing streams around it while
+    further SETTINGS frames (of either side) are in flight"""
+    import random
+    import time
+    import wire
+    from corr import replay
+    from oracles import oracle_C10
+    import checklib as L
+    REQ = [(b':method', b'GET', False), (b':scheme', b'https', False), (b':path', b'/', False), (b':authority', b'x', False)]
+    blk = wire.hpack_literal_block
+    n = {'quick': 150, 'thorough': 3000}.get(tier, 150)
+    fails, mism, progs, nops = [], [], 0, 0
+    for k in range(n):
+        if time.time() > deadline:
+            break
+        rng = random.Random((seed * 9176 + k) & 0xFFFFFFFF)
+        lim = rng.choice([0, 1, 1, 2, 3])
+        ops = [{'op': 'new', 'c': 0, 'client': False, 'vo': 1, 'no': 1, 'vi': 1, 'ni': 1, 'enc': None},
+               {'op': 'initiate_connection', 'c': 0},
+               {'op': 'recv', 'c': 0, 'data': wire.PREFACE + wire.settings_frame([]) + wire.settings_frame(ack=True)},
+               {'op': 'update_settings', 'c': 0, 'settings': [(3, lim)]},
+               {'op': 'recv', 'c': 0, 'data': wire.settings_frame(ack=True)}]
+        nxt, live, unacked = 1, [], 0
+        for _ in range(rng.randrange(6, 22)):
+            r = rng.random()
+            if r < 0.4:
+                ops.append({'op': 'recv', 'c': 0, 'data': wire.headers_frames(nxt, blk(REQ), end_stream=rng.random() < 0.25)})
+                live.append(nxt)
+                nxt += 2
+            elif r < 0.55 and live:
+                sid = live.pop(rng.randrange(len(live)))
+                ops.append({'op': 'recv', 'c': 0, 'data': wire.rst_stream(sid, 8) if rng.random() < 0.5 else wire.data_frame(sid, b'', True, None)})
+            elif r < 0.75:
+                kv = rng.choice([(3, lim), (3, lim), (3, rng.choice([0, 1, 2, 5, 100])), (3, rng.choice([0, 1, 2, 5, 100])), (4, 70000), (5, 16385), (1, 100), (16, 1)])
+                ops.append({'op': 'update_settings', 'c': 0, 'settings': [kv]})
+                unacked += 1
+            elif r < 0.9 and unacked:
+                ops.append({'op': 'recv', 'c': 0, 'data': wire.settings_frame(ack=True)})
+                unacked -= 1
+            else:
+                ops.append({'op': 'q', 'c': 0, 'what': 'open_in'})
+        r = replay(ops, model)
+        progs += 1
+        nops += len(ops)
+        if model is not None:
+            for idx, (op, ol, ml, obs) in enumerate(r.log):
+                if ml is not None and obs is not None and not r.unmodelled_at(idx) and L.project('C10', ol) != L.project('C10', ml):
+                    mism.append({'seed': seed, 'k': 'limit-%d' % k, 'idx': idx, 'ops': ops[:idx + 1]})
+                    break
+        fs = oracle_C10(r)
+        if fs:
+            f = min(fs, key=lambda x: x['idx'])
+            fails.append({'seed': seed, 'k': 'limit-%d' % k, 'failure': f, 'ops': ops[:f['idx'] + 1]})
+    return {'failures': fails, 'mismatches': mism, 'coverage': {'limit_pressure_programs': progs, 'limit_pressure_ops': nops}}
